@@ -213,6 +213,8 @@ def datavolume_cases(ctx):
 
 def replay(ctx, rp):
     r = rp['replay']
+    if r.get('kind') == 'bcalc-plain':
+        return dep_canonical(ctx, r['cases'])
     if r.get('kind') == 'bcalc-case':
         run_cases(ctx, [r['event']['case']], 'replay')
     else:
@@ -220,3 +222,44 @@ def replay(ctx, rp):
         e = dict(r['event'])
         print('    recorded event: ' + brief(e))
         validate(ctx, [e], 'replay', replay_kind='bcalc-suite')
+
+
+def dep_canonical(ctx, cases):
+    """Canonical inputs on which the pinned decimalfp mis-divides (DESIGN 5.2): executed once with the
+    division guard (must conform) and once in a sacrificial unguarded interpreter; a deviation or crash
+    there is the recorded dependency finding."""
+    run_cases(ctx, [dict(c) for c in cases], 'dep-canonical-guarded')
+    bad = None
+    evs = []
+    for c in cases:
+        try:
+            p = subprocess.run([sys.executable, os.path.join(HERE, 'plainbcalc.py')], input=json.dumps(c),
+                               stdout=subprocess.PIPE, stderr=subprocess.PIPE, text=True, timeout=120)
+        except subprocess.TimeoutExpired:
+            p = None
+        if p is None or p.returncode != 0:
+            bad = 'unguarded interpreter died (rc=%s) on %s' % (getattr(p, 'returncode', 'timeout'), json.dumps(c)[:160])
+            break
+        evs.extend(json.loads(p.stdout))
+    if bad is None and evs:
+        for j, e in enumerate(evs):
+            e['id'] = 'plain:%d' % j
+        v = tracecheck.validate([evs], 'BCalcTrace', tag=ctx.pid + '-plain')
+        for e in v.errors:
+            ctx.fail('plain confirmation: ' + e)
+        if v.deviations:
+            e = [x for x in evs if x['id'] == v.deviations[0][0]][0]
+            bad = 'without the guard: ' + brief(e)
+    if bad:
+        ctx.deviation('dep:decimalfp-div9', bad, dict(kind='bcalc-plain', cases=cases))
+    else:
+        ctx.notes.append('dep-canonical: the unguarded library conformed on %d case(s)' % len(cases))
+
+
+DEP = {
+    'C01': [dict(op='Convert', x=q('nm', 5), to='m'), dict(op='Convert', x=q('mm3', 7), to='m3')],
+    'C02': [dict(op='Mul', x=dict(k='u', u='m', a=[1, 1]), y=dict(k='u', u='nm', a=[1, 1])),
+            dict(op='Div', x=q('Gb', 3), y=dict(k='n', a=[3, 1], rep='int'))],
+    'C03': [dict(op='Add', x=q('m', 1), y=q('nm', 5))],
+    'C04': [dict(op='Cmp', c='gt', x=q('m', 1), y=q('nm', 5))],
+}
